@@ -499,7 +499,15 @@ impl<'a> G<'a> {
             self.line("@wf");
             self.line(&format!("rx 1 {} {}", OUTSTATION, hex(&sel)));
         }
-        if reps == 0 && self.r.chance(1, 4) {
+        if reps == 0 && self.r.chance(1, 30) {
+            // exactly 256 (or 512) other fragments between the two steps: the sequence number is back where a
+            // directly following OPERATE would have it, the fragment counter is not (S106)
+            let n = if self.r.chance(3, 4) { 256 } else { 512 };
+            for k in 0..n {
+                let sq = seq.wrapping_add((1 + k as u32) as u8) & 0x0F;
+                self.rx(1, OUTSTATION, vec![ctrl(sq), 23]);
+            }
+        } else if reps == 0 && self.r.chance(1, 4) {
             // the session ends between the two steps (link error, next session on the same task): the OPERATE
             // is the very first fragment of the new session and still inside the time window (S69)
             let a = self.r.range(0, left.saturating_sub(1).max(1)).min(left.saturating_sub(1));
